@@ -24,10 +24,22 @@ RULE = ('atomically balanced stoichiometries drawn from the null space of the C/
         'explicit constants (the linear solve is an oracle computed exactly by the harness) and set.copy(basis); in two extra '
         'families (unbalanced reaction corrected and used; versions of one reaction on different bases lumped and used) and in '
         'half of the other histories a DERIVED reaction is what gets applied. Streams may have cached mass/volume views. '
+        'Deepening round: (a) every correct_atomic_balance step hands the model the constants, the formula rows and the '
+        'arguments numpy.linalg.solve / lstsq actually received (recorded by wrapping them in the harness): the model builds '
+        'A and b itself and only accepts the recorded answer for exactly those; (b) force_reaction on phase-less objects '
+        '(plain, co-reactant short, and negatives negligible against 2^60 of an inert chemical); (c) Reaction.conversion / '
+        '_conversion of sets and systems; (d) ReactionSystems nested in ReactionSystems (depth <= 3, <= 5 reactions, a leaf '
+        're-based afterwards in 30 %); (e) for streams of another package everything the stream holds after the call is '
+        'compared, exception or not (data, and whether its indexer refers to the reaction package). '
         'non-trivial = the call returned normally and changed a flow, or raised; distinct = distinct case hash')
-ASSUMPTIONS = ['float rounding is not modelled: values compared to 1e-9 relative; inputs are dyadic so branch decisions agree',
+ASSUMPTIONS = ['oracle: numpy.linalg.solve / lstsq inside correct_atomic_balance, contract A x = b (solver_contract); the answer given '
+               'to the model is the exact rational solution of the exact system, the arguments are the recorded ones',
+               'float rounding is not modelled: values compared to 1e-9 relative; inputs are dyadic so branch decisions agree',
                'molecular weights are positive (Chemical replaces a missing MW by 1)']
-TRUSTED = ['model coq/C05/Model.v is hand-written from thermosteam/reaction/_reaction.py, _parse.py, _xparse.py, '
+TRUSTED = ['remove_negligible_negative_values: the negatives are taken in index order (the dictionary order of the implementation '
+           'coincides with it for the generated feeds, which hold every chemical)',
+           'formula array: only its non-zero rows (C, H, O) are given to the model (asserted at start-up)',
+           'model coq/C05/Model.v is hand-written from thermosteam/reaction/_reaction.py, _parse.py, _xparse.py, '
            'indexer.py reset_chemicals and base/dictionary_view.py MassFlowDict; tie = correspondence check',
            'the harness flattens (phase, chemical) row-major and computes the CAS index tables between packages',
            'stub chemicals: Chemical._MW is overwritten with integer weights (H=1, C=12, O=16) so that MW.S = 0 exactly']
